@@ -10,6 +10,7 @@ use crate::algebra::*;
 // cone types, the Cone / SymmetricCone / JordanAlgebra traits, CompositeCone
 pub use crate::solver::core::cones::*;
 pub use crate::solver::core::{ScalingStrategy, StepDirection};
+pub use crate::algebra::{MatrixShape, MatrixTriangle};
 
 /// y = a*A*x + b*y
 pub fn gemv_n(A: &CscMatrix<f64>, y: &mut [f64], x: &[f64], a: f64, b: f64) {
